@@ -8,6 +8,14 @@
 # x option kinds x value assignments (digit scheme: any two sources get different values in some assignment, so a
 # wrong winner is always visible) x native/cross x spelling variants.
 #
+# The command-line source has a spelling dimension (Builtin-options.md: "-Doption=value ... Some options can also be set by
+# --option=value, or --option value -- a list is shown by running meson setup --help"): the *-flag families repeat the
+# top-level / subproject / per-machine / prefix / invalid-value families with every command-line entry that has a long flag
+# written as --name=value, as --name value, or as the bare switch of a boolean option; buildtype-top-flag enumerates every
+# spelling of each of buildtype / debug / optimization in both listing orders; buildtype-configure and configure-flag do the
+# same for `meson configure`.  These cases go through the argument parser that the command itself builds (msetup /
+# mconf add_arguments) and cmdline.parse_cmd_line_options, in tier A and (as real commands) in tier B.
+#
 # Tier A drives a real OptionStore in-process through the same calls and helper functions the interpreter uses
 # (OptionInterpreter.process + update_project_options, _default_options_convertor, parse_cmd_line_options, the real
 # machine-file parser + Environment._load_machine_file_options, initialize_from_top_level_project_call,
@@ -2071,6 +2079,7 @@ def main():
         multi = late_rej = stores = 0
         sample = None
         spell = {}
+        pending = []
         for (sp, sh), agg in zip(tasks, pmap(work_a_task, tasks)):
             stores += agg['n']
             skipped_cases += agg['skipped_cases']
@@ -2086,9 +2095,13 @@ def main():
                 f = fams.setdefault(fn, {'cases': 0, 'violating': 0})
                 f['cases'] += fv['cases']
                 f['violating'] += fv['violating']
-            for case, probs in agg['problems']:
-                report(ck, 'A', case, probs, work_a)
-            for key, n in agg.get('more', {}).items():
+            pending.append((specs.index(sp), agg['problems'], agg.get('more', {})))
+        # simplest first: per family spec, the cases of all shards by number of competing sources
+        flat = [(si, case['meta'].get('nsrc', 0), n, case, probs) for n, (si, pl, _) in enumerate(pending) for case, probs in pl]
+        for si, _, _, case, probs in sorted(flat, key=lambda t: t[:3]):
+            report(ck, 'A', case, probs, work_a)
+        for _, _, more in pending:
+            for key, n in more.items():
                 if any(k.get('status') == 'known' and k['key'] == key for k in ck.known):
                     ck._known_hit[key] = ck._known_hit.get(key, 0) + n
                 else:
@@ -2198,13 +2211,20 @@ def main():
     ck.assume('yielding option set through S/PS/SC/MS (not -Dsub:opt): either the parent\'s value or the addressed value is accepted (weak)')
     ck.assume('buildtype: a lower-priority explicit debug/optimization versus a higher-priority buildtype is accepted either way (weak); '
               'debug+optimization -> buildtype deduction is not part of the property and not compared')
+    ck.assume('the spelling of a command-line entry (-Dname=value / --name=value / --name value / --name for a boolean) does not enter '
+              'the precedence; which long flags exist is read from the parsers of meson setup / meson configure ("a list is shown by '
+              'meson setup --help"); false cannot be said with a switch and the same option given in both spellings is an error: not generated')
+    ck.assume('meson configure giving buildtype: explicit debug/optimization of the same command win; against an explicit value of an '
+              'earlier command either outcome is accepted (weak), as for a lower-priority source')
     ck.assume('tier A replicates the two inline cross-build filtering steps of Environment.__init__; tier B runs the real thing')
     ck.assume('unspecified and skipped: unprefixed opt=value for an option only the subproject declares; integer/free-array option without value:; '
               'repeated array elements; build.* options in native builds; sub:prefix; abs paths inside prefix; deprecated-option remapping')
     ck.finish(evaluations=evaluations, distinct_nontrivial=len(classes),
               rule='every subset of the documented sources (2^4 top level, 2^8 subproject) x option kinds x digit-scheme value assignments x '
                    'native/cross x spellings; buildtype/debug/optimization listings; prefix x directory sources; every invalid-value class '
-                   'from every source; tier A on a real OptionStore, tier B through meson setup. distinct_nontrivial = distinct '
+                   'from every source; the command-line source in every spelling (-Dname=value, --name=value, --name value, boolean '
+                   'switch) for meson setup and meson configure, buildtype/debug/optimization in every combination of spellings and '
+                   'both orders; tier A on a real OptionStore, tier B through meson setup / meson configure. distinct_nontrivial = distinct '
                    '(tier, family, winning source | rejection stage) classes observed',
               exhaustive=True, compared_strong=tot['strong'], compared_weak=tot['weak'], skipped_unspecified=tot['skipped'] + skipped_cases,
               invalid_rejected=tot['rejected_invalid'], invalid_overridden_accepted=tot['accepted_overridden_invalid'])
@@ -2245,6 +2265,8 @@ def replay(ck):
         jc = b_adjust_features(case)
         files, argv = b_tree(case['scn'])
         print('argv:', ' '.join(argv))
+        for cmd in case['scn'].get('confcmd') or []:
+            print('then: configure bld', ' '.join(c_argv(cmd)), ' (observed in bld/meson-info/intro-buildoptions.json)')
         for f, t in files.items():
             print('--- %s\n%s' % (f, t), end='')
     probs, st = judge(jc, res, tier)
